@@ -51,4 +51,13 @@ CONFIG = {
             "paths seen by Loader/Cache must be the independently computed canonical name (or the referrer's) plus a configured extension; for Cache.Get/Put the bare canonical name is accepted too (which key a cache entry is stored under is C16's business)",
         ],
     },
+    "C16": {
+        "quick": {"checks": 20000, "shards": 4, "timeout": 600},
+        "thorough": {"checks": 1200000, "shards": 14, "timeout": 3000, "shrinktime": "60s"},
+        "assumptions": [
+            "a lookup is an expected hit only when the very same name was loaded successfully by GetTemplate before; templates pulled in indirectly (extends during a GetTemplate, include at run time) are 'maybe cached' and nothing is asserted about them until they are requested directly",
+            "which key a cache entry is stored under is not asserted; explicit-extension aliases of a name are not generated",
+            "the loader wrapper injects faults deterministically (Open error, reader failing after one byte)",
+        ],
+    },
 }
